@@ -347,6 +347,18 @@ def a5_run(carve):
             keyed("lit(5)", lambda t: pdt.lit(5), lambda r: 5)
             keyed("lit(5)", lambda t: pdt.lit(5), lambda r: 5, extra=(1,))
             keyed("lit(5, Int64)", lambda t: pdt.lit(5, pdt.Int64()), lambda r: 5, extra=(1,))
+            # summarize over a sliced table (through alias()): the aggregate sees exactly the sliced rows, also none
+            srows = sorted(rows, key=lambda r: r[3])
+            for nn, off in ((0, 0), (2, 1), (3, 5), (100, 0)):
+                sl = srows[off:off + nn]
+                cases.append((f"arrange(h) >> slice_head({nn}, offset={off}) >> alias() >> summarize(n=count(), s=c.sum())",
+                              lambda nn=nn, off=off: t >> pdt.arrange(t.h) >> pdt.slice_head(nn, offset=off) >> pdt.alias() >> pdt.summarize(n=pdt.count(), s=pdt.C.c.sum()), ["n", "s"],
+                              [(len(sl), (sum(r[2] for r in sl if r[2] is not None) if any(r[2] is not None for r in sl) else None))]))
+                gk = {}
+                for r in sl:
+                    gk.setdefault(r[1], []).append(r)
+                cases.append((f"arrange(h) >> slice_head({nn}, offset={off}) >> alias() >> group_by(b) >> summarize(n=count())",
+                              lambda nn=nn, off=off: t >> pdt.arrange(t.h) >> pdt.slice_head(nn, offset=off) >> pdt.alias() >> pdt.group_by(pdt.C.b) >> pdt.summarize(n=pdt.count()), ["b", "n"], [(k, len(g)) for k, g in gk.items()]))
             # a constant as the ONLY grouping key is still a grouping: no row for an empty input, a later filter sees the aggregated row
             cases += [
                 ("mutate(k=1) >> group_by(k) >> summarize(n=count()) >> filter(n > 1)", lambda: t >> pdt.mutate(k=1) >> pdt.group_by(pdt.C.k) >> pdt.summarize(n=pdt.count()) >> pdt.filter(pdt.C.n > 1), ["k", "n"], [(1, len(rows))]),
